@@ -327,14 +327,24 @@ func c12ParseReport(out, agg string, diff bool) (rows []c12Row, grand c12Row, wh
 			row.empty = true
 			return row, ""
 		}
-		n, err := strconv.Atoi(vs[0])
+		// a value is decimal minutes or a duration in klog's notation
+		num := func(t string) (int, error) {
+			if n, err := strconv.Atoi(t); err == nil {
+				return n, nil
+			}
+			if d, ok := sm.ParseDuration(t); ok && !d.Big {
+				return d.Mins, nil
+			}
+			return 0, fmt.Errorf("not a number or duration")
+		}
+		n, err := num(vs[0])
 		if err != nil {
 			return row, "total is not a number: " + vs[0]
 		}
 		row.total = n
 		if diff {
-			s, e1 := strconv.Atoi(strings.TrimSuffix(vs[1], "!"))
-			d, e2 := strconv.Atoi(strings.TrimPrefix(vs[2], "+"))
+			s, e1 := num(strings.TrimSuffix(vs[1], "!"))
+			d, e2 := num(strings.TrimPrefix(vs[2], "+"))
 			if e1 != nil || e2 != nil {
 				return row, "should/diff are not numbers: " + vs[1] + " " + vs[2]
 			}
@@ -506,7 +516,12 @@ func c12Doc(c *fw.Ctx, fam string, idx, n int) {
 					continue // resource use, not in the quantifier
 				}
 				caseNo++
-				args := []string{"report", "--aggregate", agg, "--decimal", "--no-style", "--no-warn"}
+				// every third document in klog's own duration notation (1h30m, +2h, 8h!) instead of decimal minutes
+				decimal := idx%3 != 1
+				args := []string{"report", "--aggregate", agg, "--no-style", "--no-warn"}
+				if decimal {
+					args = append(args, "--decimal")
+				}
 				if fill {
 					args = append(args, "--fill")
 				}
@@ -522,7 +537,7 @@ func c12Doc(c *fw.Ctx, fam string, idx, n int) {
 				cs := c12Case{fam, idx, fw.Txt(text), args}
 				c.Eval(1)
 				cmd := &cli.Report{AggregateBy: agg, Fill: fill, Chart: chart, DiffArgs: cliutil.DiffArgs{Diff: diff}, FilterArgs: f.fa,
-					DecimalArgs: cliutil.DecimalArgs{Decimal: true}, NoStyleArgs: cliutil.NoStyleArgs{NoStyle: true}, WarnArgs: cliutil.WarnArgs{NoWarn: true}, InputFilesArgs: in}
+					DecimalArgs: cliutil.DecimalArgs{Decimal: decimal}, NoStyleArgs: cliutil.NoStyleArgs{NoStyle: true}, WarnArgs: cliutil.WarnArgs{NoWarn: true}, InputFilesArgs: in}
 				r := clidrv.Exec(home, clidrv.Opts{Now: fixedNow}, cmd)
 				if (idx+caseNo)%50 == 0 {
 					r2 := clidrv.Run(home, clidrv.Opts{Now: fixedNow}, append(append([]string{}, args...), path)...)
